@@ -681,7 +681,8 @@ func (w *World) syncWith(n *node.Node, now int64, neigh []Neighbour, inside func
 	}
 	if inside != nil && !fired.Load() {
 		// no neighbour was asked (no neighbour, or an empty chain): the tick did not run — a plain round
-		opName, more = "sync", nil
+		// (the valuation entries computed for the tick are still shipped: they are marked as emitted)
+		opName, more = "sync", map[string]interface{}{"_pre": more["_pre"]}
 	}
 	line := map[string]interface{}{"op": opName, "node": n.Name, "now": now, "resps": resps}
 	for k, x := range more {
